@@ -22,6 +22,8 @@ def shapes(rng, vs):
 
 
 def main():
+    import astlib
+    astlib.AUTO_FUNCS = 0.2       # sqrt exp ln log pow at exact points in a fifth of the generated formulas
     rep = core.Report("C17")
     quick = core.tier() == "quick"
     rng = random.Random(core.seed() * 7919 + 17)
